@@ -195,10 +195,6 @@ class Gen:
                 L += ["S %d" % k, "D 4 %d" % r.getrandbits(24)]
         L.append("F")
         jit = arch == "x64" and r.random() < 0.12 and not known
-        if jit:
-            # JitRuntime::_add lays out again: a second flatten() moves an EMPTY section to the (aligned) end of its extended predecessor,
-            # so reach that fixpoint before dumping (labels bound in an empty section follow it)
-            L.append("F")
         L.append("EX")
         if jit:
             L += ["JIT"]
